@@ -9,8 +9,8 @@ EXPLANATION = ('LANG rules over the inlined MIR event graph of every source and 
                'S2 error() forwards the error as the only downstream event (no item, aggregate or completion with it) and never swallows it; '
                'S3 complete() delivers next* then exactly one complete; S5 is_finished answers true only for an empty slot or a finished downstream (otherwise a hot source skips the operator at its terminal); S6 the take_last/skip_last queues are first-in-first-out; S7 the take_last queue never holds more than `count` items after next(), for every count >= 0 (interval abstract interpretation of len - count); S8 the next() bodies of take, skip, skip_last, filter, take_while and skip_while agree with their definitions path by path (decision tables over the counter/bound difference, the predicate result and the mode flags; both directions); S9 distinct_until_(key_)changed replace their remembered item by the incoming one exactly when they forward it and never empty it; S10 value-flow definitions by path-sensitive provenance dataflow: last remembers every item and emits the remembered one, scan applies f(acc, item) once, stores and emits the new acc, default_if_empty clears its flag on every item and emits the default iff it is still set, pairwise emits (previous, item) and refills the previous slot, collect adds every item and emits the collection, map/tap/filter_map/on_error_map apply the user function once to the incoming value and forward as defined, contains answers true exactly on equality and false at the end, distinct(_key) forwards iff the key is new and then records it, buffer_with_count releases and empties the buffer exactly when it holds count items (undecidable terms pass); S11 the derived operators are the compositions their documentation states: the operator tree each ObservableExt builder returns (provided methods and constructors inlined) is compared with its definition — first = take(1), element_at(n) = skip(n).take(1), all = map.filter(not).take(1).default_if_empty(true), reduce = scan.last.default_if_empty(initial), count/sum/min/max/average with the arithmetic and the comparison direction of their folding functions, take_while vs take_while_inclusive by their flag (38 builders); S4 next() never sends an error and completes downstream only in the '
                'tabled early terminators. Decides the termination shape on every path and, for the tabled operators, which items are forwarded and where each emitted value comes from; does not decide what user closures compute.')
-ASSUMPTIONS = ['value-level results of user closures, counters and predicates are not decided']
-TECHNIQUE = 'static analysis: regular-language inclusion of downstream event words over MIR event graphs (custom rustc_private driver)'
+ASSUMPTIONS = ['what user closures compute is not decided; a provenance term the dataflow cannot resolve makes that clause undecided (it passes)']
+TECHNIQUE = 'static analysis: regular-language inclusion of downstream event words, path-sensitive interval and provenance dataflow, and operator-tree matching of builder return values, all over type-checked MIR (custom rustc_private driver)'
 
 # ---- S1: documented shape of the basic sources, keyed by the Self type of the Observable impl / fn path
 SOURCE_SPECS = {
